@@ -174,3 +174,41 @@ func zzNamesSorted(b []byte) bool {
 	}
 	return true
 }
+
+type zz02Emb struct {
+	A int8           `json:"A"`
+	X jsontext.Value `json:",embed"`
+}
+
+type zz02EmbMap struct {
+	A int8           `json:"A"`
+	X map[string]any `json:",embed"`
+}
+
+// VerifC02Embedded: members supplied through an embedded fallback (a raw jsontext.Value or a
+// map) are policed like everything else: if Marshal reports success the output is one valid
+// value under the effective options - no duplicate names (among the fallback's members, with
+// the struct's own member "A", or after U+FFFD substitution of ill-formed names under
+// AllowInvalidUTF8), well-formed UTF-8 unless allowed - otherwise an error.
+func VerifC02Embedded(tmpl string, viaMap, allowUTF8 bool) {
+	b := vrt.Template("n", tmpl)
+	var out []byte
+	var err error
+	if viaMap {
+		vrt.Assume(zzspec.ValidText(b, false, false, 10000)) // only then is the reference parser defined
+		tree, ok := zzspec.ParseAny(b)
+		m, isObj := tree.(map[string]any)
+		vrt.Assume(ok && isObj)
+		out, err = Marshal(&zz02EmbMap{A: 1, X: m}, jsontext.AllowInvalidUTF8(allowUTF8))
+	} else {
+		out, err = Marshal(&zz02Emb{A: 1, X: jsontext.Value(b)}, jsontext.AllowInvalidUTF8(allowUTF8))
+	}
+	vrt.Observe("errnil", err == nil)
+	if err != nil {
+		vrt.Cover("error")
+		return
+	}
+	vrt.Cover("success")
+	vrt.Observe("out", out)
+	vrt.Assert("C02/embedded/output-is-one-valid-value", zzspec.ValidText(out, !allowUTF8, true, 10000))
+}
